@@ -33,7 +33,10 @@ def build_demo(root, demo, out, extra):
         return sh(['gcc', '-O2', '-std=gnu11', '-I', os.path.join(root, 'include'), demo, so, '-Wl,-rpath,' + os.path.dirname(so), '-lutf8proc', '-lpthread', '-o', out])
     cc = 'clang' if '--clang' in extra else 'gcc'
     extra = [e for e in extra if e != '--clang']
-    cmd = [cc, '-g', '-O1', '-std=gnu11', '-DPOLYSEED_STATIC', '-I', os.path.join(root, 'include')] + extra + srcs + [demo, '-o', out, '-lutf8proc', '-lpthread']      # flags in `extra` come later and override -O1
+    demo_first = '--demo-first' in extra          # link order as quoted: the application's object in front of the library's
+    extra = [e for e in extra if e != '--demo-first']
+    objs = ([demo] + srcs) if demo_first else (srcs + [demo])
+    cmd = [cc, '-g', '-O1', '-std=gnu11', '-DPOLYSEED_STATIC', '-I', os.path.join(root, 'include')] + extra + objs + ['-o', out, '-lutf8proc', '-lpthread']      # flags in `extra` come later and override -O1
     return sh(cmd)
 
 
@@ -62,6 +65,8 @@ def demo_flags(demo_src):
     for fl in re.findall(r'(?<![\w-])(-m(?:arch|tune|cpu)=[\w.-]+|-m(?:avx2?|avx512\w*|popcnt|pclmul|sse[\d.]+|bmi2?|aes|32))(?![\w-])', cmd):
         if fl not in extra and fl != '-m32':
             extra.append(fl)
+    if re.search(r'demo[AB]?\.c\s+src/', cmd):
+        extra.append('--demo-first')
     if '-Wl,-z,now' in cmd:
         extra.append('-Wl,-z,now')
     if '-fgnuc-version=0' in cmd:
